@@ -59,7 +59,7 @@ theorem intRule_idem (mn mx : Option Num) (v v' : Val) (h : intRule mn mx v = .o
 
 theorem floatRule_idem (E : Env) (mn mx : Option Num) (v v' : Val) (h : floatRule E mn mx v = .ok v') : floatRule E mn mx v' = .ok v' := by
   cases v <;> simp only [floatRule] at h <;> try (cases h; done)
-  · split at h <;> cases h; simp [floatRule, *]
+  · (repeat' split at h) <;> cases h; simp [floatRule, *]
   · split at h <;> cases h; simp [floatRule, *]
   · split at h
     · split at h <;> cases h; simp [floatRule, *]
